@@ -669,3 +669,11 @@ func exchangeFromHTTP(status int, h http.Header, body []byte) Exchange {
 	}
 	return ex
 }
+
+// handlerOf returns the http.Handler of an HTTP world.
+func (w *World) handlerOf() http.Handler {
+	if w.SSE != nil {
+		return w.SSE
+	}
+	return w.Srv.Handler()
+}
